@@ -11,6 +11,8 @@ import z3
 from symx.core import SBool, SInt, cur, fresh_int, is_sym, zb, zi, Inconclusive
 from symx.harness import SNP, stubs_description
 
+from props import alias_common as _alias
+
 ID = "C14"
 REF = Path(__file__).resolve().parent.parent / "refs" / "vocab_list_4096.json"
 
@@ -361,6 +363,7 @@ def jobs(tier, seed):
     out.append(dict(h="tables", what="prefix"))
     for mode in ("AOTP_UT_uniform", "AOTP_UT_rasterized", "AOTP_CTT_indexed"):
         out.append(dict(h="tables", what="legacy", mode=mode))
+    out.append(dict(_alias.ALIAS_JOB))  # results must not alias library state, arguments or each other (props/alias_common.py)
     out[0]["twin"] = True
     return out
 
@@ -439,6 +442,7 @@ HARNESSES = {
     "encode": dict(run=_run_encode, replay=_replay_encode, patch=_PATCH),
     "tables": dict(run=_run_tables, replay=_replay_tables, patch=dict(np_modules=[], stub_ascii=False)),
 }
+HARNESSES["alias"] = _alias.alias_harness("C14")
 
 META = dict(
     functions=["utils.corner_first_ndindex (the key= function it passes to sorted)", "MazeTokenizerModular.encode/decode", "MazeTokenizer.encode/decode/_token_arr/"
@@ -460,3 +464,5 @@ META = dict(
     assumptions=["the published layout is the pinned list refs/vocab_list_4096.json (taken from the repository at the pinned commit) together with the "
                  "structural rules: special tokens first, coordinate block corner-first"],
 )
+
+META.setdefault("degenerate", {})["alias"] = _alias.ALIAS_META
